@@ -25,7 +25,7 @@ import yaql.standard_library.queries
 
 @specs.parameter('args', nullable=True)
 @specs.inject('delegate', yaqltypes.Delegate('to_list', method=True))
-def list_(delegate, *args):
+def list_(delegate, engine, *args):
     """:yaql:list
 
     Returns list of provided args and unpacks arg element if it's iterable.
@@ -43,7 +43,10 @@ def list_(delegate, *args):
     def rec(seq):
         for t in seq:
             if utils.is_iterator(t):
-                yield from rec(t)
+                # the flattened output is limited by the delegate, but an
+                # iterator of empty iterators produces no output: limit what
+                # is pulled from every nested iterator as well
+                yield from rec(utils.limit_iterable(t, engine))
             else:
                 yield t
     return delegate(rec(args))
@@ -1060,7 +1063,7 @@ def set_len(s):
 
 @specs.parameter('args', nullable=True)
 @specs.inject('delegate', yaqltypes.Delegate('to_set', method=True))
-def set_(delegate, *args):
+def set_(delegate, engine, *args):
     """:yaql:set
 
     Returns set initialized with args.
@@ -1078,7 +1081,10 @@ def set_(delegate, *args):
     def rec(seq):
         for t in seq:
             if utils.is_iterator(t):
-                yield from rec(t)
+                # the flattened output is limited by the delegate, but an
+                # iterator of empty iterators produces no output: limit what
+                # is pulled from every nested iterator as well
+                yield from rec(utils.limit_iterable(t, engine))
             else:
                 yield t
     return delegate(rec(args))
